@@ -462,8 +462,15 @@ fn splice(printed: &str, d: &Directive, nloops: usize, nrets: usize) -> Result<S
         }
         i += 1;
     }
+    // A function that has become LOOP-FREE needs no invariants: the side-car's loop sections are moot, and the remaining contract
+    // (requires / ensures / statement hints) decides the new body as it would any straight-line code. With SOME loops left but
+    // fewer or more than annotated, which invariant belongs to which loop is a guess: anchor lost.
+    let loops_gone = nloops == 0 && (!d.loops.is_empty() || d.expect_loops.map(|n| n > 0).unwrap_or(false));
+    if loops_gone {
+        eprintln!("vx: NOTE: {}: every annotated loop is gone from the source; loop sections of the side-car dropped, contract checked on the loop-free body", d.selector.join(" "));
+    }
     for k in d.loops.keys() {
-        if *k >= nloops {
+        if *k >= nloops && !loops_gone {
             return Err(format!("side-car names loop {k} but the function has {nloops} loops (anchor lost)"));
         }
     }
@@ -473,7 +480,7 @@ fn splice(printed: &str, d: &Directive, nloops: usize, nrets: usize) -> Result<S
         }
     }
     if let Some(n) = d.expect_loops {
-        if n != nloops {
+        if n != nloops && !loops_gone {
             return Err(format!("side-car expects {n} loops, function has {nloops} (anchor lost)"));
         }
     }
@@ -524,6 +531,8 @@ fn splice(printed: &str, d: &Directive, nloops: usize, nrets: usize) -> Result<S
             s = s.replacen(&from_mut, &format!("let mut {name}: {ty} = "), 1);
         } else if s.contains(&from) {
             s = s.replacen(&from, &format!("let {name}: {ty} = "), 1);
+        } else if loops_gone && name.starts_with("__") {
+            // the normaliser temporary belonged to a loop that no longer exists
         } else {
             return Err(format!("side-car let-type {name}: binding not found (anchor lost)"));
         }
